@@ -69,38 +69,11 @@ def tree_of(obj, top=None):
     raise ValueError('foreign item ' + type(obj).__name__)
 
 
-def obj_depth(o):
-    if isinstance(o, JoinableStringList):
-        return 1 + max([obj_depth(i) for i in o.items] or [0])
-    return 0
-
-
 def wide(o):
     """the same object with an unreachable width (never wraps)"""
     if isinstance(o, JoinableStringList):
         return JoinableStringList([wide(i) for i in o.items], o.sep, WIDE, list(o.cont), o.separable)
     return o
-
-
-def nested_empty(o, root=True):
-    """known class `nested-empty-item`: a non-root list with more than one item one of which prints as ''"""
-    if not isinstance(o, JoinableStringList):
-        return False
-    if not root and len(o.items) > 1 and any(str(i) == '' for i in o.items):
-        return True
-    return any(nested_empty(i, False) for i in o.items)
-
-
-def nested_rewrap(o, root=True, S=0):
-    """known class `nested-rewrap`: a non-root list has an item that is a list which does not fit on one line once the
-    separators of its ancestors (total length S) are appended (printed on its own with str() it then wraps)"""
-    if not isinstance(o, JoinableStringList):
-        return False
-    S = S + len(o.sep)
-    if not root and any(isinstance(i, JoinableStringList) and len(str(wide(i))) + S + len(o.cont[0]) > o.width
-                        for i in o.items):
-        return True
-    return any(nested_rewrap(i, False, S) for i in o.items)
 
 
 def atoms(o):
@@ -276,14 +249,6 @@ def width_failures(out, W, c0, c1, exempt_last=False):
 
 def fortran_cont(c0, c1):
     return c0.strip(' ') == '&\n' and c1.strip(' ') in ('&', '')
-
-
-def dq_break(out, c0, c1):
-    """classifier of the known class `doubled-quote-split` on the real output"""
-    if not (c0 + c1):
-        return False
-    ps = out.split(c0 + c1)
-    return any(a and b and a[-1] == b[0] and a[-1] in QUOTES for a, b in zip(ps, ps[1:]))
 
 
 # ----------------------------------------------------------------------------- capture from fgen
@@ -537,29 +502,27 @@ class C04(Prop):
     props_module = 'LokiModel.Props.C04'
     driver = 'Drivers/C04.lean'
     theorems = ['C04_patterns_pinned', 'C04_style_widths', 'C04_chunks_lossless', 'C04_width', 'C04_width_ok',
-                'C04_str_item', 'C04_str_item_terminates', 'C04_chunk_bounds_outside_literals',
-                'C04_tokens_full_false', 'C04_tokens_partial', 'C04_unwrap_id_partial', 'C04_str_raises_witness']
+                'C04_str_item', 'C04_str_item_terminates', 'C04_chunk_bounds_outside_literals', 'C04_tokens',
+                'C04_unwrap_id_partial', 'C04_former_crash_witness']
     design_ref = 'DESIGN.md 4.A C04'
     level_text = (
-        'Lean theorems about a hand-written model that mirrors JoinableStringList (__init__, _add_item_to_line, _to_str, '
-        '__add__/__radd__, the chunker regexes as character scanners) and Stringifier.format_line. Full strength, for all item '
-        'trees of any nesting depth, separators, separable flags, widths, continuation strings and every fuel with which the '
-        'model terminates: C04_width (every physical line of str(list) is shorter than the width, or it is cont[1] + one single '
-        'chunk of the chunker + the head of cont[0], i.e. only an unbreakable over-long chunk exceeds) and its positive form '
-        'C04_width_ok; for all strings: C04_chunks_lossless (the chunker drops no character) and '
-        'C04_chunk_bounds_outside_literals (for well-quoted strings no chunk boundary is inside a character literal, so no '
-        'break at a blank or parenthesis inside a literal); C04_str_item (+ _terminates) characterises what happens to a string '
-        'item. The token statement is violated by the unchanged code: C04_tokens_full_false (witness \'it\'\'s\' is chunked '
-        'between the two quotes of the doubled quote); C04_tokens_partial holds outside the class doubled-quote-split and is '
-        'PARTIAL: it is a chunk-level statement (no Lean lexer; that breaks fall only on item/chunk boundaries is not stated). '
-        'C04_unwrap_id_partial: for every list of strings (no nesting) str(list) is exactly the joined text cut into pieces that '
-        'are joined by cont[0]+cont[1], no character added or dropped; PARTIAL because nested lists are not covered (for them the '
-        'statement is false: classes nested-empty-item, nested-rewrap). Nested unwrap identity, break positions and format_line '
-        'are checked on every generated input by the correspondence (model output = real str()/format_line output) and by '
-        'the direct oracle (exact de-continuation identity against the real code at unbounded width, width statement, and '
-        'equality of the token sequences computed by a free-form Fortran lexer with & continuation handling). Two further '
-        'defect classes of nested lists found by the search (nested-empty-item, nested-rewrap) are known findings, oracle-level; '
-        'a third one is a crash (split-none-crash: str() raises AttributeError), reproduced by the model (C04_str_raises_witness).')
+        'Lean theorems about a hand-written model that mirrors JoinableStringList (__init__, _add_item_to_line, _to_str, _flat, '
+        '__add__/__radd__, the chunker regexes as character scanners) and Stringifier.format_line, after the three fix: commits. '
+        'Full strength, for all item trees of any nesting depth, separators, separable flags, widths, continuation strings and '
+        'every fuel with which the model terminates: C04_width (every physical line of str(list) is shorter than the width, or '
+        'it is cont[1] + one single chunk of the chunker + the head of cont[0], i.e. only an unbreakable over-long chunk exceeds) '
+        'and its positive form C04_width_ok. For all strings: C04_chunks_lossless (the chunker drops no character); for all '
+        'well-quoted one-line strings: C04_tokens (every chunk boundary is outside the character literals and none separates the '
+        'two quotes of a doubled quote: a literal is one chunk) — full strength since the quoted-string pattern was repaired '
+        '(formerly C04_tokens_full_false / _partial). C04_str_item (+ _terminates) characterises what happens to a string item. '
+        'C04_unwrap_id_partial: for every list of strings (no nesting) str(list) is exactly the joined text cut into pieces '
+        'that are joined by cont[0]+cont[1], no character added or dropped; PARTIAL because nested lists are not covered by the '
+        'proof. Not proved in Lean: the Fortran lexing step (a blank, parenthesis or quote next to a chunk boundary is a token '
+        'boundary), break positions and unwrap identity of nested lists, format_line. These are checked on every generated '
+        'input by the correspondence (model output = real str()/format_line output) and by the direct oracle (exact '
+        'de-continuation identity against the real code at unbounded width, width statement, and equality of the token sequences '
+        'computed by a free-form Fortran lexer with & continuation handling). No open finding: the four classes found by the '
+        'build round (doubled-quote-split, split-none-crash, nested-empty-item, nested-rewrap) were repaired.')
     level_note = (
         'Trusted: the hand-written model (tied by correspondence on synthetic lists/trees, format_line calls and every list '
         'captured while fgen prints generated routines), the Python lexer and width oracle, Lean kernel. Modelled, not verified: '
@@ -575,18 +538,16 @@ class C04(Prop):
             'str(JoinableStringList) and every format_line call while fgen prints generated routines with long declarations, '
             'expressions, argument lists, literals and pragmas at line widths 60..132 in both Fortran styles; the chunker alone '
             'on random strings. non-trivial = the real output contains a line break; distinct by request line')
-    trusted_base = ['harness/props/c04.py: ftokens/logical_line (free-form lexer), width_failures/breakable_inside, dq_break, '
-                    'nested_empty, nested_rewrap classifiers', 'Lean driver evaluation of the model definitions']
+    trusted_base = ['harness/props/c04.py: ftokens/logical_line (free-form lexer), width_failures/breakable_inside, atoms', 'Lean driver evaluation of the model definitions']
     assumptions = ['all JoinableStringList objects of one tree share width and cont (as Stringifier.join_items builds them)',
                    'ASCII text; cont has at most one newline for the width theorem (cont[0] = head + newline)',
                    'items are whole tokens for the token oracle (checked per input, skipped otherwise)']
     extra_obligations = ['oracle: width statement on every physical line of the real output',
                          'oracle: removing cont[0]+cont[1] from the real output gives the real unbounded-width output',
-                         'oracle: Fortran token sequence of wrapped = unwrapped real output',
-                         'classifier agreement: knownDQ / knownNE / knownRW (Lean) = harness classifiers on every str request']
+                         'oracle: Fortran token sequence of wrapped = unwrapped real output']
 
     def classes(self):
-        return ['doubled-quote-split', 'nested-empty-item', 'nested-rewrap', 'split-none-crash']
+        return []      # all four classes found by the build round were repaired by fix: commits
 
     # ---- tables regenerated from the repo
     def tables(self):
@@ -723,10 +684,7 @@ class C04(Prop):
         op = str(req[0])
         try:
             if op == 'str':
-                obj = self._obj(req)
-                out = str(obj)
-                dq = dq_break(out, obj.cont[0], obj.cont[1]) if obj_depth(obj) <= 2 else A('na')
-                return [A('ok'), out, dq, nested_empty(obj), nested_rewrap(obj)]
+                return [A('ok'), str(self._obj(req))]
             if op == 'fmt':
                 return [A('ok'), self._fmt(req)[0]]
             if op == 'chunks':
@@ -778,15 +736,11 @@ class C04(Prop):
         except AssertionError:
             return []       # the constructor refuses this width/cont
         except AttributeError as e:
-            return [Failure(f'str() of the list raised AttributeError: {e}', 'split-none-crash')]
-        ne = any(nested_empty(o) for o in objs)
-        rw = any(nested_rewrap(o) for o in objs)
-        dq = dq_break(out, c0, c1)
-        other = 'nested-rewrap' if rw else ('nested-empty-item' if ne else None)
+            return [Failure(f'str() of the list raised AttributeError: {e}')]
         # 1 width
         # (no_wrap: the caller asked for the items to be concatenated as they are; no width statement)
         for f in ([] if nowrap else width_failures(out, W, c0, c1, exempt_last=exempt)):
-            fails.append(Failure(f, 'nested-rewrap' if rw else None))
+            fails.append(Failure(f))
         # 2 removing the continuation markers gives the unwrapped text
         if (c0 + c1) not in ref:
             un, un_ref = out.replace(c0 + c1, ''), ref
@@ -799,7 +753,7 @@ class C04(Prop):
                 un, un_ref = un.rstrip(), ref.rstrip()
             if un != un_ref:
                 fails.append(Failure('removing the continuation markers does not give the unwrapped text: '
-                                     f'{un[:80]!r} vs {un_ref[:80]!r}', other))
+                                     f'{un[:80]!r} vs {un_ref[:80]!r}'))
         # 3 same Fortran tokens (when the items are whole tokens: the token sequence of the unwrapped text is the
         #   concatenation of the token sequences of the leaf strings and separators)
         if fortran_cont(c0, c1) and '\n' not in ref:
@@ -810,8 +764,7 @@ class C04(Prop):
                 ta = ftokens(out)
                 if ta != tb:
                     k = next((i for i, (x, y) in enumerate(zip(ta, tb)) if x != y), min(len(ta), len(tb)))
-                    fails.append(Failure(f'token sequence changed by wrapping at token {k}: {ta[k:k + 3]} vs {tb[k:k + 3]}',
-                                         'doubled-quote-split' if dq else other))
+                    fails.append(Failure(f'token sequence changed by wrapping at token {k}: {ta[k:k + 3]} vs {tb[k:k + 3]}'))
         return fails
 
 
